@@ -387,7 +387,7 @@ impl Property for C05 {
         }
         // alignment independence
         let keys = all_keys(dic);
-        let texts: Vec<String> = case.texts.iter().map(|t| render_pieces(&keys, t)).collect();
+        let texts: Vec<String> = case.texts.iter().map(|t| render_pieces(&keys, t)).filter(|t| !f7_class(&case.dic, &CfgModel::minimal(&pos_from_str(POS_NOUN)), t)).collect();
         let base = observe(dic, &dict, &texts);
         for k in 0..4usize {
             match guarded(|| with_alignment(&compiled, &config, k, |d| observe(dic, d, &texts))) {
